@@ -64,4 +64,18 @@ def mapEntries : Node → List (Node × Node)
   | .map kvs => kvs.map (fun kv => (Node.str kv.1, kv.2))
   | _ => []
 
+mutual
+/-- nesting depth of a node: 0 for scalars (the fuel a recursive walk over the node needs, less one) -/
+def nodeDepth : Node → Nat
+  | .list xs => nodeDepthList xs + 1
+  | .map kvs => nodeDepthMap kvs + 1
+  | _ => 0
+def nodeDepthList : List Node → Nat
+  | [] => 0
+  | x :: xs => max (nodeDepth x) (nodeDepthList xs)
+def nodeDepthMap : List (Bytes × Node) → Nat
+  | [] => 0
+  | (_, x) :: xs => max (nodeDepth x) (nodeDepthMap xs)
+end
+
 end Ucan.GoM
